@@ -92,4 +92,19 @@ CHECKS["C03"] = {
           "symbolic, any number of events). The exact count under an event limit follows from the downsample_rand contract and a "
           "cardinality lemma that is stated, not mechanised. Filter.__init__/reset and RTDCBase.polygon_filter_add/rm are not under contract.",
   "technique": "contract-based deductive verification: AST-generated VCs with a class invariant as pre/postcondition over quantified array formulas, discharged by z3 (cvc5 fallback)"}
+CHECKS["C04"] = {
+  "text": "Proof over the rank/select axioms of np.where: map_indices_child2parent (index arrays and scalar, negative indices), "
+          "child2root (composition of the level maps, depths 1..3), parent2child and root2child (increasing child indices whose "
+          "parent/root event is given, depths 1..2); ChildNDArray/ChildContour/ChildTraceItem[idx] == parent feature at S[idx]; "
+          "ChildScalar values == parent[feat][filter] (C20/C17 units); HierarchyFilter.retrieve_manual_indices: remembered root ids == "
+          "root events excluded now + remembered ids hidden now (ghost cuts over set predicates); apply_manual_indices: exactly the "
+          "child events whose root event is remembered are excluded again; RTDC_Hierarchy.apply_filter: manual ids retrieved before "
+          "the parent refresh, every cached feature object dropped unconditionally, fresh index 1..len, parent-change check before the "
+          "child's own filters are recomputed.",
+  "note": "Trusted: N-WHERE / N-FANCY / N-ISIN, P-SET (finite sets of ints enumerate without repetition), hparent[feat] as the parent's "
+          "feature object, the callees of apply_filter as recording stubs (their own contracts are the units above and C03). The chain "
+          "of hierarchy levels is concrete per unit (depth 1..3) with symbolic data and filters; general depth by induction (stated). "
+          "_check_parent_filter's composition (retrieve, new HierarchyFilter, apply) and set_temporary_feature are not under contract; "
+          "the replay harness plays edit histories on real hierarchies (bounded, used only when a function leaves the subset).",
+  "technique": "contract-based deductive verification: AST-generated VCs over quantified rank/select axioms with ghost functions and ghost cuts, discharged by z3"}
 NOT_APPLICABLE = {}
